@@ -282,10 +282,15 @@ private theorem qstep_exec (fuel : Nat) (ihE : QE fuel) (ihL : QL fuel) (ihA : Q
     · rename_i s1 r1 he
       exact key _ _ (ihE fs c s s1 r1 hfs hne he) h
   | pipe codes lastc =>
+    simp only [noExit] at hne
     (rw [exec.eq_def] at h; simp only at h)
     split at h
     · simp at h
-    · exact key _ _ normal_ne_exit h
+    · rename_i s1 r1 he
+      split at h
+      · have h1 := ihE fs lastc s s1 r1 hfs hne he
+        exact key s1 ⟨pipeStatus s.pipefail (codes ++ [r1.code]), r1.flow⟩ h1 h
+      · exact key _ _ normal_ne_exit h
   | fault k => (rw [exec.eq_def] at h; simp only at h); exact key _ _ normal_ne_exit h
   | callT f =>
     (rw [exec.eq_def] at h; simp only at h)
@@ -827,6 +832,67 @@ example :
       some ({ counts := [(1, 1)], trace := [.m 1], last := 0, errexit := true }, { code := 0, flow := .normal }) ∧
     exec 3 [] false (.leaf 1 [0, 4]) { counts := [(1, 1)], errexit := true } =
       some ({ counts := [(1, 2)], trace := [.m 1], last := 4, errexit := true }, { code := 4, flow := .exit }) := by
+  refine ⟨by decide +kernel, by decide +kernel⟩
+
+
+/-! ## 7. pipelines and `lastpipe` -/
+
+/-- With `lastpipe` on, the last stage of a pipeline runs in the shell itself: when it leaves by
+`exit` (the builtin, or errexit inside it) the pipeline's flow is `exit` — the shell ends — with the
+pipeline's status, and the last stage's state changes stay. -/
+theorem lastpipe_exit_reaches_the_shell (fuel : Nat) (fs : List Cmd) (sup : Bool) (codes : List Nat)
+    (lastc : Cmd) (s s1 : St) (r1 : Res) (hl : s.lastpipe = true)
+    (h1 : exec fuel fs sup lastc s = some (s1, r1)) (hx : r1.flow = .exit) :
+    ∃ s' r, exec (fuel + 1) fs sup (.pipe codes lastc) s = some (s', r) ∧ r.flow = .exit ∧
+      r.code = pipeStatus s.pipefail (codes ++ [r1.code]) ∧ s' = { s1 with last := r.code } := by
+  refine ⟨{ s1 with last := pipeStatus s.pipefail (codes ++ [r1.code]) },
+    { code := pipeStatus s.pipefail (codes ++ [r1.code]), flow := .exit }, ?_, rfl, rfl, rfl⟩
+  rw [exec.eq_def]
+  simp [h1, hl, hx, post, Flow.isNormal]
+
+/-- non-vacuity: `shopt -s lastpipe; Q 0 | { m1; exit 6; }; m2` ends the shell with status 6 after
+`m1`; without lastpipe the `exit` only ends the last stage's subshell and `m2` runs -/
+example :
+    exec 9 [] false (.seq (.cons (.pipe [0] (.seq (.cons (.leaf 1 [0]) (.cons (.exit (some 6)) .nil))))
+        (.cons (.leaf 2 [0]) .nil))) { lastpipe := true } =
+      some ({ counts := [(1, 1)], trace := [.m 1], last := 6, lastpipe := true }, { code := 6, flow := .exit }) ∧
+    exec 9 [] false (.seq (.cons (.pipe [0] (.seq (.cons (.leaf 1 [0]) (.cons (.exit (some 6)) .nil))))
+        (.cons (.leaf 2 [0]) .nil))) {} =
+      some ({ counts := [(2, 1)], trace := [.m 1, .m 2], last := 0 }, { code := 0, flow := .normal }) := by
+  refine ⟨by decide +kernel, by decide +kernel⟩
+
+/-- Without `lastpipe` every stage runs in its own copy of the shell: whatever the last stage does
+(`exit`, `return`, `break`, `set -e`, variable and counter changes), the pipeline's flow is normal —
+or `exit` raised by the parent's own errexit check of the pipeline status — and only the output and
+the status come back. -/
+theorem no_lastpipe_stage_flow_stays_inside (fuel : Nat) (fs : List Cmd) (sup : Bool)
+    (codes : List Nat) (lastc : Cmd) (s s' : St) (r : Res) (hl : s.lastpipe = false)
+    (h : exec (fuel + 1) fs sup (.pipe codes lastc) s = some (s', r)) :
+    (∃ s1 r1, exec fuel fs sup lastc s = some (s1, r1) ∧
+        r.code = pipeStatus s.pipefail (codes ++ [r1.code]) ∧
+        s' = { s with trace := s1.trace, last := r.code }) ∧
+      (r.flow = .normal ∨ (r.flow = .exit ∧ sup = false ∧ s.errexit = true ∧ r.code ≠ 0)) ∧
+      (r.flow = .exit ↔ (sup = false ∧ s.errexit = true ∧ r.code ≠ 0)) ∧
+      s'.counts = s.counts ∧ s'.fdepth = s.fdepth ∧ s'.scope = s.scope ∧ s'.errexit = s.errexit ∧
+      s'.pipefail = s.pipefail ∧ s'.inheritErrexit = s.inheritErrexit ∧ s'.lastpipe = s.lastpipe := by
+  rw [exec.eq_def] at h
+  simp only [hl, Bool.false_eq_true, ↓reduceIte] at h
+  split at h
+  · simp at h
+  · rename_i s1 r1 he
+    simp only [post, Option.some.injEq] at h
+    cases hs : sup <;> cases hee : s.errexit <;>
+      by_cases hz : pipeStatus s.pipefail (codes ++ [r1.code]) = 0 <;>
+      simp [hs, hee, hz, Flow.isNormal] at h <;>
+      obtain ⟨rfl, rfl⟩ := h <;>
+      refine ⟨⟨s1, r1, ?_, ?_, ?_⟩, ?_, ?_, ?_⟩ <;> simp_all
+
+/-- non-vacuity: `Q 0 | { m1; exit 6; }` and, in a loop, `Q 3 | break` under `set -o pipefail; set -e` -/
+example :
+    exec 9 [] false (.pipe [0] (.seq (.cons (.leaf 1 [0]) (.cons (.exit (some 6)) .nil)))) {} =
+      some ({ trace := [.m 1], last := 6 }, { code := 6, flow := .normal }) ∧
+    exec 9 [] false (.forIn 2 (.pipe [3] (.brk none))) { errexit := true, pipefail := true } =
+      some ({ last := 3, errexit := true, pipefail := true }, { code := 3, flow := .exit }) := by
   refine ⟨by decide +kernel, by decide +kernel⟩
 
 
